@@ -1,4 +1,38 @@
-(* C11 - placeholder until the theorems are in place. *)
-Require Import RQ.Base.
-Theorem C11_placeholder : True. Proof. exact I. Qed.
-Print Assumptions C11_placeholder.
+(* C11 - The current transform acts on geometry and sources as one user space.
+   PARTIAL: the structural claims below are theorems; "fill under T = fill of Path::transform(T) under the identity" and
+   "a pixel's colour is the source at T^-1 of the pixel centre" involve f32 rounding of the matrix products and are decided
+   by the bit-exact correspondence (Flocq front end) and by the metamorphic pairs run on the implementation, not proved. *)
+Require Import RQ.Base RQ.F32 RQ.Rect RQ.Pixel RQ.Raster RQ.PathF RQ.PathOps RQ.Shader RQ.Surface RQ.Target RQ.TargetProofs RQ.OpsProofs RQ.ClipProofs RQ.LayerProofs RQ.MiscProofs.
+
+(* a non-invertible transform draws nothing *)
+Theorem C11_singular_transform_draws_nothing_partial : forall st src mask mr rect0 blend alpha,
+  xf_inverse (d_ctm st) = None -> composite st src mask mr rect0 blend alpha = Ok st.
+Proof. exact singular_ctm_draws_nothing. Qed.
+Print Assumptions C11_singular_transform_draws_nothing_partial.
+(* clip rectangles are in device space: pushing one commutes with any change of transform *)
+Theorem C11_clip_rect_in_device_space_partial : forall st t r, push_clip_rect (with_ctm st t) r = with_ctm (push_clip_rect st r) t.
+Proof. exact clip_rect_ignores_ctm. Qed.
+(* copy_surface / blend_surface(_with_alpha) read and write the base surface only *)
+Theorem C11_surface_ops_ignore_transform_partial : forall st k sw sh sbuf sr dx dy st',
+  step_op st (OpSurface k sw sh sbuf sr dx dy) = Ok st' ->
+  exists b, surface_op k (d_w st) (d_h st) (d_buf st) sw sh sbuf sr dx dy = Ok b /\ st' = with_buf st b.
+Proof. exact surface_op_only_touches_the_surface. Qed.
+Print Assumptions C11_surface_ops_ignore_transform_partial.
+(* mask(): its rectangle is (x, y, x+w, y+h) whatever the transform (definition of mask_op), and a solid source is the same
+   colour under every transform *)
+Theorem C11_solid_source_ignores_transform_partial : forall t1 t2 c alpha, choose_shader t1 (Solid c) alpha = choose_shader t2 (Solid c) alpha.
+Proof. exact solid_shader_ignores_ctm. Qed.
+(* pop_layer and clear leave the transform as they found it *)
+Theorem C11_clear_preserves_transform_partial : forall st c st', d_probe st = 0 -> clear st c = Ok st' -> d_ctm st' = d_ctm st.
+Proof. exact clear_preserves_ctm. Qed.
+Print Assumptions C11_clear_preserves_transform_partial.
+Theorem C11_pop_layer_preserves_transform_partial : forall st st', d_probe st = 0 -> pop_layer st = Ok st' -> d_ctm st' = d_ctm st.
+Proof. exact (fun st st' Hp H => proj1 (pop_restores_transform_and_clips st st' Hp H)). Qed.
+Print Assumptions C11_pop_layer_preserves_transform_partial.
+(* every drawing call keeps the transform (same_frame) *)
+Theorem C11_drawing_preserves_transform_partial : forall st o st', d_probe st = 0 -> drawing_op o = true -> step_op st o = Ok st' -> d_ctm st' = d_ctm st.
+Proof. exact (fun st o st' Hp Hd H => match effect_same_frame st st' Hp (drawing_op_effect st o st' Hd H) with conj _ (conj _ (conj _ (conj A _))) => A end). Qed.
+Print Assumptions C11_drawing_preserves_transform_partial.
+(* stroke is the fill, under the current transform, of the user-space outline (definition of step_op on OpStroke) *)
+Theorem C11_stroke_is_fill_of_user_space_outline_partial : forall st p s o, step_op st (OpStroke p s o) = fill st p s o.
+Proof. reflexivity. Qed.
